@@ -4,6 +4,7 @@ CONSTANTS
   MaxExtra = 2
   AttrModes <- ModesQuick
   VarNone = FALSE
+  ReqVersions <- ReqQuick
 INVARIANT Explained
 INVARIANT TrimInv
 CHECK_DEADLOCK FALSE
